@@ -35,6 +35,12 @@ def jobs(tier, seed):
             for bases in progx.chunked(gen.base_programs(size), chunk):
                 yield {"bases": bases, "menu": MENU, "k": k, "convs": convs, "cats": CATS, "r1": True}
         done.add((n, k, tuple(convs)))
+    # shape family over succeeding leaves (values keep their shape for every structure of depth 2 / arity <= 3)
+    leaves = (gen.K, gen.IA, ("n",)) if tier == "quick" else (gen.K, gen.IA, ("n",), gen.IB)
+    m = 48 if tier == "quick" else 128
+    for i in range(m):
+        yield {"shape_slice": [i, m, tier], "shape_leaves": leaves, "menu": [], "k": 0, "convs": ["call", "yielded"],
+               "cats": CATS, "r1": True}
 
 
 worker_init = progx.worker_init
